@@ -344,7 +344,14 @@ impl ByteCompiler<'_> {
                             let index = self.get_or_insert_string(ident);
                             self.bytecode.emit_throw_mutate_immutable(index.into());
                         }
-                        Err(BindingLocatorError::Silent) => {}
+                        Err(BindingLocatorError::Silent) => {
+                            // An immutable binding of sloppy code (the name of a function expression)
+                            // assigned from strict code: a TypeError.
+                            if self.strict() {
+                                let index = self.get_or_insert_string(ident);
+                                self.bytecode.emit_throw_mutate_immutable(index.into());
+                            }
+                        }
                     }
                 }
                 IterableLoopInitializer::Access(access) => {
